@@ -23,11 +23,12 @@ def operand_shapes(kind, tier):
         s = [(0, None), (1, None), (1, 1), (2, 0), (2, 1)]
         return s if tier == 'thorough' else [(1, None), (1, 1), (2, 0)]
     if kind == 'poly':
-        s = [(), (0,), (1,), (2,), (1, 1), (0, 2), (1, 2)]
-        return s if tier == 'thorough' else [(0,), (1, 1), (1, 2)]
+        # (0, 0): a constant split over two monomials with empty id lists (wire-legal, not normalised)
+        s = [(), (0,), (1,), (2,), (1, 1), (0, 2), (1, 2), (0, 0), (0, 1, 0)]
+        return s if tier == 'thorough' else [(0,), (0, 0), (1, 1), (0, 1, 0), (1, 2)]
     if kind == 'func':
-        s = [('constant',), ('linear', 1), ('linear', 2), ('quadratic', 1, 1), ('quadratic', 1, None), ('polynomial', (1, 2)), ('polynomial', (0, 2))]
-        return s if tier == 'thorough' else [('constant',), ('linear', 2), ('quadratic', 1, 1), ('polynomial', (1, 2))]
+        s = [('constant',), ('linear', 1), ('linear', 2), ('quadratic', 1, 1), ('quadratic', 1, None), ('polynomial', (1, 2)), ('polynomial', (0, 2)), ('polynomial', (0, 0))]
+        return s if tier == 'thorough' else [('constant',), ('linear', 2), ('quadratic', 1, 1), ('polynomial', (0, 0)), ('polynomial', (1, 2))]
     raise ValueError(kind)
 
 
@@ -53,6 +54,10 @@ def build_operand(P, kind, shape, pre):
 
     def newid():
         slot[0] += 1
+        pat = P.h['bounds'].get('id_pattern_' + pre)
+        if pat is not None:
+            # wide operands: a concrete id pattern (with repeats, unsorted) instead of exploring every assignment
+            return pat[(slot[0] - 1) % len(pat)]
         return P.choose(P.h['bounds'].get('id_domain', IDS))
     coef = lambda n: coef_dom(P, n)
     if kind == 'f64':
@@ -188,7 +193,7 @@ def build(chk):
             raise Inconclusive('ambiguous impl for ' + callee)
     chk.bounds = {'operand kinds': KINDS, 'ops': ['add', 'sub', 'mul', 'neg', 'scalar mul'],
                   'pairs with an impl (read from MIR)': len(defined), 'pairs without impl': undefined,
-                  'terms per operand': '<= 2 non-constant terms (+ constant / linear part)', 'ids': 'every assignment of {0,1,2} to the id slots (explored paths); {0,1} when an operand pair has more than 5 id slots',
+                  'terms per operand': '<= 2 non-constant terms (+ constant / linear part) with every id pattern; plus wide operands (6-8 terms; 4 terms for products) over concrete unsorted id patterns with repeats for lin/quad/poly/func pairs', 'ids': 'every assignment of {0,1,2} to the id slots (explored paths); {0,1} when an operand pair has more than 5 id slots',
                   'coefficients': 'symbolic reals, each 0 or with magnitude in [2^-10, 2^10] ("signed"); for operand pairs with more than 3 (quick) / 4 (thorough) '
                                   'id slots only positive coefficients in [2^-10, 2^10] ("positive": no cancellation except through sub/neg) - recorded per harness'}
     chk.assumptions += [
@@ -275,7 +280,14 @@ def build(chk):
         pairs = list(itertools.product(sas, sbs))
         if chk.tier == 'quick' and len(pairs) > 2:
             # quick: the richest shape pair plus one chosen by the seed; thorough: all
+            allp = pairs
             pairs = [pairs[-1], pick.choice(pairs[:-1])]
+            # always keep the un-normalised split-constant polynomial against the other operand's richest shape
+            SPLIT = [(0, 0), ('polynomial', (0, 0))]
+            for pr in allp:
+                if (pr[0] in SPLIT and pr[1] == sbs[-1]) or (pr[1] in SPLIT and pr[0] == sas[-1]):
+                    if pr not in pairs:
+                        pairs.append(pr)
         for sa, sb in pairs:
             slots = count_slots(a, sa) + count_slots(b, sb)
             if slots > (6 if op == 'mul' else 8):
@@ -284,6 +296,26 @@ def build(chk):
             chk.harness(f'{op}:{a}{list(sa)}x{b}{list(sb)}', mk(op, a, sa, b, sb, callee),
                         bounds={'callee': callee, 'coefficients': mode, 'id_domain': 3 if slots <= 5 else 2})
             njobs += 1
+    # wide operands (the property quantifies over ~8 terms): concrete unsorted id patterns with repeats, symbolic coefficients
+    WIDE = {'lin': [(6,), (8,)], 'quad': [(3, 2), (4, 4)], 'poly': [(1, 2, 1, 2, 0, 1), (2, 1, 3, 1, 0, 2, 1)],
+            'func': [('linear', 8), ('quadratic', 3, 3), ('polynomial', (1, 2, 1, 2, 0, 1))]}
+    PAT_A, PAT_B = [0, 3, 1, 3, 4, 0, 2, 5, 1, 2], [2, 2, 0, 5, 1, 4, 0, 3, 3, 1]
+    wide_ops = [(op, a, b, callee) for op, a, b, callee in defined if a in WIDE and b in WIDE]
+    for op, a, b, callee in wide_ops:
+        for wi in range(2 if chk.tier == 'thorough' else 1):
+            sa, sb = WIDE[a][wi % len(WIDE[a])], WIDE[b][(wi + 1) % len(WIDE[b])]
+            if op == 'mul':
+                # products: 4-term operands (16 partial products), positive coefficients
+                sa = {'lin': (4,), 'quad': (2, 1), 'poly': (1, 2, 0, 1), 'func': ('linear', 4)}[a]
+                sb = {'lin': (4,), 'quad': (1, 2), 'poly': (1, 1, 2), 'func': ('polynomial', (1, 0, 2))}[b]
+                if wi:
+                    continue
+            if a == 'quad' or (a == 'func' and sa[0] == 'quadratic') or b == 'quad' or (b == 'func' and sb[0] == 'quadratic'):
+                pa, pb = [0, 1, 0, 2, 1, 2, 3, 0, 4, 1, 5, 2], [1, 0, 2, 2, 0, 3, 4, 1, 0, 5, 3, 2]     # no duplicated (row, column) position
+            else:
+                pa, pb = PAT_A, PAT_B
+            chk.harness(f'wide:{op}:{a}{list(sa)}x{b}{list(sb)}', mk(op, a, sa, b, sb, callee),
+                        bounds={'callee': callee, 'coefficients': 'positive', 'id_pattern_a': pa, 'id_pattern_b': pb})
     # negation and the term iterators
     for a in KINDS:
         if a == 'f64':
